@@ -113,6 +113,9 @@ def build_tree(td: Path, rng, c):
     (td / "proj" / "sub" / "inc").write_text("#include 'inc2'\nb 5;\n")
     (td / "proj" / "sub" / "inc2").write_text("c 'x y';\n")
     (td / "proj" / "other.json").write_text('{"k": 1}')
+    # unrelated siblings with names a careless "temporary file" / "backup" scheme would pick
+    for nm in ("out.tmp", "out.bak", "out~", "parsed.tmp", "parsed.src.tmp", "src.tmp", ".out.tmp", "out.json.tmp", "out.foam.tmp", "tmp", "sub/out.tmp", "parsed.src.bak"):
+        (td / "proj" / nm).write_text("unrelated " + nm + ";\n")
     # the same source reached through symbolic links: a linked file with another name in another folder, a linked folder
     (td / "proj" / "shared").mkdir()
     (td / "proj" / "shared" / "settings").write_text("// shared\na 1;\nn { p 2; }\n")
